@@ -22,3 +22,30 @@ package cmd
 //@   ensures[C05] result == 0 ==> a == b
 //@   ensures[C05] (result < 0) == (selfcall(b, a) > 0)
 //@   ensures[C05] forall(c, "ti/base.ClassNode", result < 0 && selfcall(b, c) < 0 ==> selfcall(a, c) < 0)
+
+//@ # ---- C04: the editor query printers never crash, whatever the captured target T is ----
+//@ # (no precondition at all on the target: nothing may be assumed about what the evaluator left there)
+//@ func ti/cmd.calculateObjectClassAndIsStatic
+//@   safe
+//@ func ti/cmd.isSuggestForKernelOrObjectClass
+//@   safe
+//@ func ti/cmd.isSuggest
+//@   safe
+//@ func ti/cmd.isParentClass
+//@   safe
+//@ func ti/cmd.PrintSuggestionsForLsp
+//@   safe
+//@ func ti/cmd.PrintHover
+//@   safe
+//@ func ti/cmd.PrintAllDefinitionsForLsp
+//@   safe
+//@ func ti/cmd.printSignature
+//@   safe
+//@ func ti/cmd.printInheritance
+//@   safe
+//@ func ti/cmd.printSuggestion
+//@   safe
+//@ func ti/cmd.printDefinitionTarget
+//@   safe
+//@ func ti/cmd.printAllClasses
+//@   safe
